@@ -62,6 +62,20 @@ def exhaustive_type_table(eng):
                     code = (1000 if vendor is None else 2000) + ti
                     for v in leafs:
                         cases.append(hist_line("g", ("NEW", 272, 4, 0x80, 1, 2), [("ADDAVP", code, vendor, fl, v)]))
+    # every value length 0 .. 70 (and around 255 / 256) for the variable-length types, with and without a vendor id: whatever small-value
+    # path an encoder has, its boundary is in here
+    for kind in ("oct", "utf"):
+        ti = TYS.index(KIND_TY[kind]) - 1
+        for vendor in (None, 10415):
+            code = (1000 if vendor is None else 2000) + ti
+            for n in list(range(0, 71)) + [127, 128, 129, 254, 255, 256, 257]:
+                v = ("L", (kind, bytes((7 + 3 * i) % 95 + 32 for i in range(n))))
+                cases.append(hist_line("g", ("NEW", 272, 4, 0x80, 1, 2), [("ADDAVP", code, vendor, 0x40, v)]))
+    # the same code twice, and once more under a vendor (Session-Id's code 263 among them): every AVP goes out, in the order added
+    for c in (263, 264, 1011):
+        cases.append(hist_line("g", ("NEW", 272, 4, 0x80, 1, 2), [("ADDAVP", 1011, None, 0, ("L", ("oct", b"first"))), ("ADDAVP", c, None, 0x40, ("L", ("utf", b"one"))),
+                                                                  ("ADDAVP", c, 10415, 0x40, ("L", ("utf", b"two-vendor"))), ("ADDAVP", c, None, 0x40, ("L", ("utf", b"three"))),
+                                                                  ("ADDAVP", 1012, None, 0, ("L", ("u32", 5)))]))
     # every command the library knows with every application, every flag nibble, ids at the edges
     for ci, cmd in enumerate(gen.CMDS):
         for ai, app in enumerate(gen.APPS):
@@ -818,6 +832,11 @@ def check_C04(chk, tier, seed):
                         if vl == 0:
                             exact = exact[:-1] + bytes([last]) if pad else exact
                         fam.append(("fixed-size-short-at-end", "g", bytes([1]) + gen.be(20 + len(exact), 3) + bytes([0x80]) + gen.be(272, 3) + gen.be(4, 4) + gen.be(1, 4) + gen.be(2, 4) + exact, False))
+    # Result-Code (268) values of every class, and outside every class, in the built-in dictionary: decoded, then formatted
+    for rc in (0, 1, 999, 1001, 2001, 3002, 4010, 5012, 5999, 6000, 6001, 9999, 65535, 1 << 31, 0xffffffff):
+        for code in (268, 298, 297):
+            body = gen.be(code, 4) + b"\x40" + gen.be(12, 3) + gen.be(rc, 4)
+            fam.append(("display-stress", "b", bytes([1]) + gen.be(20 + len(body), 3) + bytes([0]) + gen.be(272, 3) + gen.be(4, 4) + gen.be(1, 4) + gen.be(2, 4) + body, False))
     tab = eng.ask_model(exhaustive_type_table(eng))
     for m in tab:
         _, o = split_obs(m)
